@@ -223,8 +223,36 @@ def status_of(rc):
     return rc if rc >= 0 else "signal %d" % -rc
 
 
+def limit_programs(ctx):
+    """generated programs at table-size boundaries of the module format (function table, string pool, globals): what the
+    loader reads back must be what the compiler wrote, however large the tables are"""
+    d = ctx.dir("c10limits")
+    out = []
+
+    def add(name, text, val, init_lines):
+        path = os.path.join(d, name + ".nano")
+        open(path, "w").write("/* c10: status=ok tag=int val=%d init_lines=%d */\n" % (val, init_lines) + text)
+        v = val & ((1 << 64) - 1)
+        out.append(dict(name=name, src=path, status="ok", tag="int", val=[(v >> (8 * k)) & 255 for k in range(8)], init=1 if init_lines else 0,
+                        init_lines=init_lines, main=1))
+    counts = (255, 256, 257, 511, 512, 513) if ctx.tier == "quick" else (255, 256, 257, 511, 512, 513, 1023, 1024, 1025, 4096)
+    for n in counts:
+        # n helper functions, one global initialised by a call (so that __init__ is the last table entry), main uses first, middle, last helper
+        fns = "".join("fn h%d(x: int) -> int { return (+ x %d) }\nshadow h%d { assert true }\n" % (k, k % 7, k) for k in range(n))
+        text = fns + "fn side(x: int) -> int { (println \"initialising\") return x }\nshadow side { assert true }\nlet g: int = (side 4)\n" + \
+            "fn main() -> int {\n    (println (h0 1))\n    (println (h%d 1))\n    (println (h%d 1))\n    return (+ g 1)\n}\nshadow main { assert true }\n" % (n // 2, n - 1)
+        add("limit_functions_%d" % n, text, 5, 1)
+    for n in ((300, 70000) if ctx.tier == "thorough" else (300,)):
+        lits = "".join("    set acc (+ acc (str_length \"s%05d\"))\n" % k for k in range(n))
+        text = "fn main() -> int {\n    let mut acc: int = 0\n" + lits + "    (println acc)\n    (println \"\")\n    return 3\n}\nshadow main { assert true }\n"
+        add("limit_strings_%d" % n, text, 3, 0)
+    # the empty string as the last literal of the last function (a length prefix in the last four bytes of the pool)
+    add("limit_trailing_empty_string", "fn main() -> int {\n    (println \"x\")\n    (print \"\")\n    return 7\n}\nshadow main { assert true }\n", 7, 0)
+    return out
+
+
 def run_programs(ctx, tree, cov, switches):
-    progs = corpus_programs()
+    progs = corpus_programs() + limit_programs(ctx)
     # --- the prescription: NvmRun.tla, once without deviations (model-checked), once with the listed ones
     mc = os.path.join(ctx.dir("mc"), "NvmRun_MC.tla")
     decl = [dict(name=p["name"], status=p["status"], tag=p["tag"], val=p["val"], init=p["init"], main=p["main"]) for p in progs]
